@@ -11,8 +11,7 @@ class C03(SessionCheck):
     RULE = ('lock-step histories on the real Session/RPC/RPCReplyListener objects over the three transports and 14 profiles: '
             '1-6 pipelined asynchronous requests, replies in random order (qualified / unqualified / prefixed rpc-reply), '
             'interleaved notifications and unknown messages, duplicate / unknown / missing message-ids (odd flavour), short writes, '
-            'Stray replies (no id / unknown id / duplicate) with exactly one request outstanding; four threads behind a slow user device handler. '
-            'arbitrary read segmentation; every step compared with the Lean model; socket sessions with 2-5 client threads, a first-request race, an application that re-seeds the global RNG before every request, two sessions in one process of which one ends while the other has requests outstanding, and 1100+ requests outstanding at once on one session. Non-trivial = history of >= 8 commands; distinct by case.')
+            'arbitrary read segmentation; every step compared with the Lean model; socket sessions with 2-5 client threads, a first-request race, an application that re-seeds the global RNG before every request, two sessions in one process of which one ends while the other has requests outstanding, and 1100+ requests outstanding at once on one session. Stray replies (no id / unknown id / duplicate) with exactly one request outstanding; four threads behind a slow user device handler. Non-trivial = history of >= 8 commands; distinct by case.')
 
     def e2e_cases(self, rng, tier):
         from cases import session_gen as SG
